@@ -96,6 +96,9 @@ Fixpoint starts_with (p l : str) : bool :=
   end.
 Definition ends_with (sfx l : str) : bool := starts_with (rev sfx) (rev l).
 
+Fixpoint last_opt {A} (l : list A) : option A :=
+  match l with [] => None | [x] => Some x | _ :: r => last_opt r end.
+
 (* fuelled iteration result *)
 Inductive res (A : Type) := Ok (a : A) | Err | OutOfFuel.
 Arguments Ok {A} a.  Arguments Err {A}.  Arguments OutOfFuel {A}.
